@@ -68,7 +68,10 @@ fn plugin_parser<'a>(s: &str) -> Result<Plugin, &'a str> {
         Value,
     }
 
-    assert!(!s.is_empty());
+    // An empty string has no plugin path; it is rejected like any other value without one.
+    if s.is_empty() {
+        return Err("missing plugin path (ex: 'PATH,KEY=VALUE')");
+    }
 
     let mut plugin_path = String::new();
     let mut plugin_args = Vec::<(String, String)>::new();
